@@ -100,7 +100,9 @@ Theorem e2e_byte_pcm en wo ch total w chunks f :
     (* the blocks themselves, for the readers area *)
     Forall (EP.block_ok (conv_si (f_si f)) bps) blocks /\ EP.short_only_last (conv_si (f_si f)) blocks /\
     FlacCodec.Ast.si_total (conv_si (f_si f)) = EP.blocks_samples blocks /\
-    FlacCodec.Ast.si_channels (conv_si (f_si f)) = ch /\ EP.blocks_samples blocks < 2 ^ 36.
+    FlacCodec.Ast.si_channels (conv_si (f_si f)) = ch /\ EP.blocks_samples blocks < 2 ^ 36 /\
+    (* C02: the strict stream validator accepts the finished file and yields the same blocks *)
+    FlacCodec.Spec.spec_stream (f_stream f) = Ok (conv_si (f_si f), blocks).
 Proof.
   intros Hwf Hnew Hrun Hbytes n samples Hfits Hlen36.
   pose proof (byte_new_wf p en [] wo rate bps ch total w Hwf Hnew) as Hbw.
@@ -233,9 +235,8 @@ Proof.
   assert (Hsub : (length (concat (map (decode_bytes en n) cs) ++ decode_bytes en n whole) <= length samples)%nat).
   { rewrite Esamples, !app_length. lia. }
   assert (H3664 : 2 ^ 36 < 2 ^ 64) by (apply N.pow_lt_mono_r; lia).
-  assert (Hshape : EP.short_only_last si (bl1 ++ lastbl)).
-  { apply short_only_last_app; [|exact Llast].
-    destruct (chunks_blocks_ok bps si ch bs Hc1 Hc8 Hb1 Hb32 ltac:(lia) Ssb Ssc Ssm (map (decode_bytes en n) cs) bl1) as (_ & _ & _ & _ & Hl1).
+  assert (Hfullbl : Forall (fun bk => FlacCodec.Enc.block_len bk = bs) bl1).
+  { destruct (chunks_blocks_ok bps si ch bs Hc1 Hc8 Hb1 Hb32 ltac:(lia) Ssb Ssc Ssm (map (decode_bytes en n) cs) bl1) as (_ & _ & _ & _ & Hl1).
     { clear - Hf1. induction Hf1; constructor; auto. } { exact Hcs. }
     assert (Fl : Forall (fun x => length x = (c * b)%nat) (map (decode_bytes en n) cs)).
     { apply Forall_forall. intros x Hx. rewrite Forall_forall in Hcs. destruct (Hcs x Hx) as (m & _ & _ & Hl & _).
@@ -243,8 +244,12 @@ Proof.
       rewrite (Fcs _ Hy), Hkk. replace (n * (c * b))%nat with (c * b * n)%nat by lia. apply Nat.div_mul. lia. }
     clear - Hl1 Fl Hb Hc. induction Hl1 as [|x bk cl bl Hcb _ IH]; constructor.
     * apply Forall_cons_iff in Fl. destruct Fl as [Lx _]. rewrite Lx in Hcb. fold c in Hcb.
-      assert (N.to_nat (FlacCodec.Enc.block_len bk) = b) by nia. lia.
+      assert (N.to_nat (FlacCodec.Enc.block_len bk) = b) by nia. unfold b in *. lia.
     * apply IH. apply Forall_cons_iff in Fl. tauto. }
+  assert (Hshape : EP.short_only_last si (bl1 ++ lastbl)).
+  { apply short_only_last_app; [|exact Llast]. eapply Forall_impl; [|exact Hfullbl]. intros bk Hbk. cbn beta in Hbk. rewrite Hbk. lia. }
+  assert (Hfull : FlacCodec.File.full_but_last si (bl1 ++ lastbl)).
+  { apply full_but_last_app; [|exact Llast]. rewrite Ssm. exact Hfullbl. }
   destruct (e2e_encoder o L md5 md5_length p rate bps wo ch t e0 (bl1 ++ lastbl) e2 f He0 Hr Hfin Hok Hshape) as [Hdec Htot].
   { (* at most one block per sample *)
     assert (Hcnt : (length (bl1 ++ lastbl) <= length (concat (map (decode_bytes en n) cs ++ map (decode_bytes en n) wholes)))%nat).
@@ -253,8 +258,17 @@ Proof.
     rewrite concat_app, Hwc, Hwq in Hcnt.
     unfold FlacCodec.Header.MAX_FRAME_NUMBER. change (2 ^ 36 - 1 + 1) with (2 ^ 36). lia. }
   { lia. }
+  assert (Hspec : FlacCodec.Spec.spec_stream (f_stream f) = Ok (si, bl1 ++ lastbl)).
+  { apply (e2e_encoder_spec o L md5 md5_length p rate bps wo ch t e0 (bl1 ++ lastbl) e2 f He0 Hr Hfin Hok Hfull).
+    - unfold FlacCodec.Header.MAX_FRAME_NUMBER. change (2 ^ 36 - 1 + 1) with (2 ^ 36).
+      assert (Hcnt : (length (bl1 ++ lastbl) <= length (concat (map (decode_bytes en n) cs ++ map (decode_bytes en n) wholes)))%nat).
+      { rewrite Hcount. assert (F : Forall (chunk_cond bps ch bs) (map (decode_bytes en n) cs ++ map (decode_bytes en n) wholes)) by (apply Forall_app; split; assumption).
+        clear - F Hc. induction F as [|x l (m & Hm & _ & Hl & _) _ IH]; cbn [concat length]; [lia|]. rewrite app_length. fold c in Hl. nia. }
+      rewrite concat_app, Hwc, Hwq in Hcnt. lia.
+    - lia.
+    - fold bs. lia. }
   exists (bl1 ++ lastbl). split; [exact Hdec|].
-  split; [|split; [exact Hok|split; [exact Hshape|split; [exact Htot|split; [exact Ssc|lia]]]]].
+  split; [|split; [exact Hok|split; [exact Hshape|split; [exact Htot|split; [exact Ssc|split; [lia|exact Hspec]]]]]].
   rewrite Hcat.
   (* the whole PCM frames of all samples *)
   rewrite Esamples, app_assoc.
